@@ -130,20 +130,69 @@ func feasibleUnder(in *eng.Interp, atoms []eng.Atom) bool {
 				return false
 			}
 		case "case":
-			if a.Case == nil || a.Case.Tag == nil || a.Case.Clause == nil {
+			if a.Case == nil {
+				continue
+			}
+			sw, _ := a.Case.Switch.(*ast.SwitchStmt)
+			if sw == nil {
+				continue
+			}
+			if a.Case.Tag == nil {
+				// tagless switch: the chosen clause has a test that may hold, every earlier clause
+				// (all other clauses for the default) only tests that may fail
+				for _, cl := range sw.Body.List {
+					cc := cl.(*ast.CaseClause)
+					if cc == a.Case.Clause {
+						if cc.List == nil {
+							continue
+						}
+						may := false
+						for _, e := range cc.List {
+							if v := in.Eval(e); v.K != "bool" || v.B {
+								may = true
+							}
+						}
+						if !may {
+							return false
+						}
+						break
+					}
+					for _, e := range cc.List {
+						if v := in.Eval(e); v.K == "bool" && v.B {
+							return false
+						}
+					}
+				}
 				continue
 			}
 			tag := in.Eval(a.Case.Tag)
 			if tag.K != "kind" && tag.K != "str" && tag.K != "int" {
 				continue
 			}
+			same := func(e ast.Expr) (known, eq bool) {
+				v := in.Eval(e)
+				if v.K != tag.K {
+					return false, false
+				}
+				return true, v.S == tag.S && v.I == tag.I
+			}
 			if a.Case.Default || a.Case.Implicit {
+				// taken only when no clause's value equals the tag
+				for _, cl := range sw.Body.List {
+					for _, e := range cl.(*ast.CaseClause).List {
+						if known, eq := same(e); known && eq {
+							return false
+						}
+					}
+				}
+				continue
+			}
+			if a.Case.Clause == nil {
 				continue
 			}
 			hit := false
 			for _, e := range a.Case.Clause.List {
-				v := in.Eval(e)
-				if v.K != tag.K || v.S == tag.S && v.I == tag.I {
+				if known, eq := same(e); !known || eq {
 					hit = true
 				}
 			}
@@ -164,10 +213,27 @@ func runC15(p *core.Program, r *core.Report) {
 	}
 	cinfo := p.Pkg("compiler").TypesInfo
 	// ---- R15.1 enumerate type-dependent template conditions
-	typeDep := func(c eng.TCond) string {
+	var typeDep func(c eng.TCond) string
+	typeDep = func(c eng.TCond) string {
 		var ex ast.Expr = c.Expr
 		if c.Case != nil && c.Case.Tag != nil {
 			ex = c.Case.Tag
+		}
+		if c.Case != nil && c.Case.Tag == nil {
+			// a tagless switch: the tests are the clauses' expressions (all of them decide the
+			// default clause)
+			var tests []ast.Expr
+			if sw, ok := c.Case.Switch.(*ast.SwitchStmt); ok {
+				for _, cl := range sw.Body.List {
+					tests = append(tests, cl.(*ast.CaseClause).List...)
+				}
+			}
+			for _, t := range tests {
+				if d := typeDep(eng.TCond{Expr: t}); d != "" {
+					return d
+				}
+			}
+			return ""
 		}
 		if ex == nil {
 			return ""
@@ -229,7 +295,7 @@ func runC15(p *core.Program, r *core.Report) {
 	}
 	r.Analysed["type_directed_kinds"] = kinds
 
-	c15TypedOperators(p, r, e)
+	c15TypedOperators(p, r, e, typeDep)
 	c15FastCall(p, r, e)
 	c15MapEnv(p, r, e)
 	c15TypedPush(p, r, e)
@@ -243,7 +309,7 @@ func runC15(p *core.Program, r *core.Report) {
 }
 
 // c15TypedOperators: the operator templates with several type-selected variants.
-func c15TypedOperators(p *core.Program, r *core.Report, e *engines) {
+func c15TypedOperators(p *core.Program, r *core.Report, e *engines, typeDep func(eng.TCond) string) {
 	info := p.Pkg("compiler").TypesInfo
 	method := p.FuncDecl("compiler", "compiler", "BinaryNode")
 	if method == nil {
@@ -277,7 +343,9 @@ func c15TypedOperators(p *core.Program, r *core.Report, e *engines) {
 	for _, op := range ops {
 		ats := assertedOperandTypes(p, e, op)
 		// is the opcode a SPECIALISED variant: emitted under a condition that was taken?
-		specialised := false
+		// (emitted ONLY on paths on which a type-dependent test holds; the general instruction is
+		// also reached when every such test fails)
+		specialised, nEmit := true, 0
 		for _, t := range e.em.Templates["BinaryNode"] {
 			has := false
 			for _, ev := range t.Events {
@@ -288,12 +356,22 @@ func c15TypedOperators(p *core.Program, r *core.Report, e *engines) {
 			if !has {
 				continue
 			}
+			nEmit++
+			holds := false
 			for _, c := range t.Conds {
-				if c.Case == nil && c.Expr != nil && c.Taken {
-					specialised = true
+				// a type-dependent test that HOLDS on this path: an if taken, or a non-default case
+				if typeDep(c) == "" {
+					continue
+				}
+				if (c.Case == nil && c.Taken) || (c.Case != nil && !c.Case.Default && !c.Case.Implicit) {
+					holds = true
 				}
 			}
+			if !holds {
+				specialised = false
+			}
 		}
+		specialised = specialised && nEmit > 0
 		if specialised {
 			okAssert := len(ats) == 2 && ats[0] != nil && ats[1] != nil
 			if okAssert {
@@ -325,7 +403,7 @@ func c15TypedOperators(p *core.Program, r *core.Report, e *engines) {
 				continue
 			}
 			for _, c := range t.Conds {
-				if c.Case == nil && c.Expr != nil {
+				if typeDep(c) != "" {
 					selected = true
 				}
 			}
@@ -338,12 +416,29 @@ func c15TypedOperators(p *core.Program, r *core.Report, e *engines) {
 		key := "compiler/BinaryNode/" + op + " only for operands of exactly " + b0.Name()
 		opObj := p.Pkg("vm").Types.Scope().Lookup(op)
 		paths := pathsTo(info, method, func(a eng.Atom) bool {
-			if a.Kind != "call" || a.Call == nil {
-				return false
+			// the opcode is handed to a call (emit) or bound to a variable that is emitted later
+			isOp := func(x ast.Expr) bool {
+				id, ok := eng.Unparen(x).(*ast.Ident)
+				return ok && info.Uses[id] == opObj
 			}
-			for _, arg := range a.Call.Args {
-				if id, ok := eng.Unparen(arg).(*ast.Ident); ok && info.Uses[id] == opObj {
-					return true
+			switch {
+			case a.Kind == "call" && a.Call != nil:
+				for _, arg := range a.Call.Args {
+					if isOp(arg) {
+						return true
+					}
+				}
+			case a.Kind == "assign":
+				for _, rhs := range a.Node.(*ast.AssignStmt).Rhs {
+					if isOp(rhs) {
+						return true
+					}
+				}
+			case a.Kind == "return":
+				for _, res := range a.Node.(*ast.ReturnStmt).Results {
+					if isOp(res) {
+						return true
+					}
 				}
 			}
 			return false
